@@ -10,12 +10,15 @@ def Kr (v : MT) : Prop := MT.rank .sat ≤ v.rank
 /-- the children of a list with `viable ≥ SATISFIED` either hold nothing or are themselves `≥ SATISFIED` -/
 def KC (cs : List ST) : Prop := ∀ ch ∈ cs, holds ch = [] ∨ Kr ch.viable
 
+/-- UNSATISFIED children (of an AndOrList / OrList) hold nothing: they were unmarked -/
+def UC (cs : List ST) : Prop := ∀ ch ∈ cs, ch.viable = .unsat → holds ch = []
+
 mutual
   /-- structural invariant: OrLists keep their marks in the `choice` child; below a list that counts, only lists that
   count hold marks -/
   def Tidy : ST → Prop
     | .simple .. => True
-    | .mult j v c _ _ cs => TidyL cs ∧ (Kr v → KC cs) ∧
+    | .mult j v c _ _ cs => TidyL cs ∧ (Kr v → KC cs) ∧ (j ≠ .and → UC cs) ∧
         (j = .or → ∀ i ch, cs[i]? = some ch → inRange c cs.length ≠ some i → holds ch = [])
   def TidyL : List ST → Prop
     | [] => True
@@ -46,6 +49,7 @@ mutual
       simp only [holds] at h
       simp only [Tidy]
       exact ⟨TidyL_of_H0 cs h, fun _ ch hch => Or.inl ((holdsL_nil_iff cs).mp h ch hch),
+        fun _ ch hch _ => (holdsL_nil_iff cs).mp h ch hch,
         fun _ i ch hch _ => (holdsL_nil_iff cs).mp h ch (List.mem_of_getElem? hch)⟩
   theorem TidyL_of_H0 : ∀ (cs : List ST), holdsL cs = [] → TidyL cs
     | [], _ => trivial
@@ -73,7 +77,7 @@ mutual
     | .mult _ _ _ _ _ cs, h => by
       simp only [Tidy] at h
       simp only [OrT]
-      exact ⟨OrTL_of_TidyL cs h.1, h.2.2⟩
+      exact ⟨OrTL_of_TidyL cs h.1, h.2.2.2⟩
   theorem OrTL_of_TidyL : ∀ (cs : List ST), TidyL cs → OrTL cs
     | [], _ => trivial
     | c :: cs, h => by
@@ -103,6 +107,7 @@ structure MAPostL (o : Name → Nat) (cs : List ST) (es : Ents) (r : List ST × 
   same : SameOut o es r.2.1
   tidy : TidyL r.1
   kc : KC cs → KC r.1
+  uc : UC cs → UC r.1
   noop : r.2.2 = false → holdsL r.1 = holdsL cs ∧ ∀ x, markAt r.2.1 x = markAt es x
 
 structure MAPostO (o : Name → Nat) (es : Ents) (r : List ST × Ents × Option Nat) : Prop where
@@ -110,6 +115,7 @@ structure MAPostO (o : Name → Nat) (es : Ents) (r : List ST × Ents × Option 
   same : SameOut o es r.2.1
   tidy : TidyL r.1
   kc : KC r.1
+  uc : UC r.1
   some_ : ∀ j, r.2.2 = some j → j < r.1.length ∧ ∀ p c, r.1[p]? = some c → p ≠ j → holds c = []
   none_ : r.2.2 = none → holdsL r.1 = [] ∧ ∀ x, markAt r.2.1 x = markAt es x
 
@@ -181,7 +187,7 @@ theorem accept_marks (N : List Name) (hN : N.Pairwise (· < ·)) : ∀ f : Nat,
         obtain ⟨hc, hl⟩ := hfr
         simp only [Loc] at hl
         simp only [Tidy] at htidy
-        obtain ⟨htl, hkc, hor⟩ := htidy
+        obtain ⟨htl, hkc, huc, hor⟩ := htidy
         cases j with
         | or =>
           simp only [Idle] at hidle
@@ -189,7 +195,7 @@ theorem accept_marks (N : List Name) (hN : N.Pairwise (· < ·)) : ∀ f : Nat,
           have hnone : MAPost o (.mult .or v c c1 k cs) es (.mult .or v listEnd c1 k cs, es, false) := by
             refine ⟨⟨hc, hl⟩, fun _ _ => rfl, ?_, fun _ => ⟨rfl, fun _ => rfl⟩⟩
             simp only [Tidy]
-            exact ⟨htl, hkc, fun _ i ch hch _ => (holdsL_nil_iff cs).mp hidle ch (List.mem_of_getElem? hch)⟩
+            exact ⟨htl, hkc, huc, fun _ i ch hch _ => (holdsL_nil_iff cs).mp hidle ch (List.mem_of_getElem? hch)⟩
           split at h
           · cases h; exact hnone
           · rename_i i hir
@@ -201,13 +207,13 @@ theorem accept_marks (N : List Name) (hN : N.Pairwise (· < ·)) : ∀ f : Nat,
               obtain ⟨p1, p2⟩ := P.none_ rfl
               refine ⟨⟨P.fr.1, P.fr.2⟩, P.same, ?_, fun _ => ⟨by simp only [holds]; rw [p1, hidle], p2⟩⟩
               simp only [Tidy]
-              exact ⟨P.tidy, fun _ => P.kc, fun _ i ch hch _ => (holdsL_nil_iff cs').mp p1 ch (List.mem_of_getElem? hch)⟩
+              exact ⟨P.tidy, fun _ => P.kc, fun _ => P.uc, fun _ i ch hch _ => (holdsL_nil_iff cs').mp p1 ch (List.mem_of_getElem? hch)⟩
             | some j =>
               cases h2
               obtain ⟨p1, p2⟩ := P.some_ j rfl
               refine ⟨⟨P.fr.1, P.fr.2⟩, P.same, ?_, fun h' => by cases h'⟩
               simp only [Tidy]
-              refine ⟨P.tidy, fun _ => P.kc, fun _ p ch hch hne => p2 p ch hch ?_⟩
+              refine ⟨P.tidy, fun _ => P.kc, fun _ => P.uc, fun _ p ch hch hne => p2 p ch hch ?_⟩
               intro e; subst e; exact hne (inRange_cast p1)
         | and =>
           simp only [Idle] at hidle
@@ -217,7 +223,7 @@ theorem accept_marks (N : List Name) (hN : N.Pairwise (· < ·)) : ∀ f : Nat,
           have P := ih2 cs es _ o h1 hnm ⟨hc, hl⟩ htl hidle
           refine ⟨⟨P.fr.1, P.fr.2⟩, P.same, ?_, fun h' => ?_⟩
           · simp only [Tidy]
-            exact ⟨P.tidy, fun hk => P.kc (hkc hk), fun h' => by cases h'⟩
+            exact ⟨P.tidy, fun hk => P.kc (hkc hk), fun hj => P.uc (huc hj), fun h' => by cases h'⟩
           · obtain ⟨a, b⟩ := P.noop h'
             exact ⟨by simp only [holds]; exact a, b⟩
         | andor =>
@@ -228,7 +234,7 @@ theorem accept_marks (N : List Name) (hN : N.Pairwise (· < ·)) : ∀ f : Nat,
           have P := ih2 cs es _ o h1 hnm ⟨hc, hl⟩ htl hidle
           refine ⟨⟨P.fr.1, P.fr.2⟩, P.same, ?_, fun h' => ?_⟩
           · simp only [Tidy]
-            exact ⟨P.tidy, fun hk => P.kc (hkc hk), fun h' => by cases h'⟩
+            exact ⟨P.tidy, fun hk => P.kc (hkc hk), fun hj => P.uc (huc hj), fun h' => by cases h'⟩
           · obtain ⟨a, b⟩ := P.noop h'
             exact ⟨by simp only [holds]; exact a, b⟩
     -- ---------------------------------------------------------- JoinList::acceptChoice
@@ -236,7 +242,7 @@ theorem accept_marks (N : List Name) (hN : N.Pairwise (· < ·)) : ∀ f : Nat,
       cases cs with
       | nil =>
         simp only [acceptJoin] at h; cases h
-        exact ⟨hfr, fun _ _ => rfl, trivial, fun h' => h', fun _ => ⟨rfl, fun _ => rfl⟩⟩
+        exact ⟨hfr, fun _ _ => rfl, trivial, fun h' => h', fun h' => h', fun _ => ⟨rfl, fun _ => rfl⟩⟩
       | cons ch rest =>
         obtain ⟨hc, hl⟩ := hfr
         simp only [LocL] at hl
@@ -256,24 +262,26 @@ theorem accept_marks (N : List Name) (hN : N.Pairwise (· < ·)) : ∀ f : Nat,
         have A : Fr (fun n => o n + cntL n rest) ch' es1 ∧ SameOut (fun n => o n + cntL n rest) es es1 ∧ Tidy ch' ∧
             names es1 = N ∧ (holds ch' = [] ∨ Kr ch'.viable → True) ∧
             ((holds ch = [] ∨ Kr ch.viable) → (holds ch' = [] ∨ Kr ch'.viable)) ∧
+            ((ch.viable = .unsat → holds ch = []) → (ch'.viable = .unsat → holds ch' = [])) ∧
             (r1 = false → holds ch' = holds ch ∧ ∀ x, markAt es1 x = markAt es x) := by
           split at h1
           · rename_i hal
             have P := ih1 ch es _ _ h1 hnm hfrc htidy.1 (hidle.1 hal) (fun _ => hal)
             have hsk := (accept_skel f).1 ch es _ h1
+            have hkr : Kr ch'.viable := by rw [viable_of_skel hsk]; exact Kr_of_atLeastSome hal
             refine ⟨P.fr, P.same, P.tidy, by rw [(accept_names f).1 ch es _ h1]; exact hnm, fun _ => trivial,
-              fun _ => Or.inr ?_, P.noop⟩
-            rw [viable_of_skel hsk]; exact Kr_of_atLeastSome hal
+              fun _ => Or.inr hkr, fun _ hu => ?_, P.noop⟩
+            rw [hu] at hkr; simp [Kr, MT.rank] at hkr
           · cases h1
-            exact ⟨hfrc, fun _ _ => rfl, htidy.1, hnm, fun _ => trivial, fun h' => h', fun _ => ⟨rfl, fun _ => rfl⟩⟩
-        obtain ⟨a1, a2, a3, a4, _, a6, a7⟩ := A
+            exact ⟨hfrc, fun _ _ => rfl, htidy.1, hnm, fun _ => trivial, fun h' => h', fun h' => h', fun _ => ⟨rfl, fun _ => rfl⟩⟩
+        obtain ⟨a1, a2, a3, a4, _, a6, a6', a7⟩ := A
         have hfrr : FrL (fun n => o n + cnt n ch') rest es1 := by
           refine ⟨fun x => ?_, LocL_congr rest (fun x hx => a2 x (by show 0 < o x + cntL x rest; omega)) hl.2⟩
           have h' : o x + cntL x rest + cnt x ch' = (if markAt es1 x = Mark.no then 0 else 1) := a1.1 x
           show o x + cnt x ch' + cntL x rest = _
           omega
         have Q := ih2 rest es1 _ _ h3 a4 hfrr htidy.2 hidle.2
-        refine ⟨⟨fun x => ?_, ?_⟩, fun x hx => ?_, ⟨a3, Q.tidy⟩, fun hk => ?_, fun hb => ?_⟩
+        refine ⟨⟨fun x => ?_, ?_⟩, fun x hx => ?_, ⟨a3, Q.tidy⟩, fun hk => ?_, fun hk => ?_, fun hb => ?_⟩
         · have h' : o x + cnt x ch' + cntL x rest' = (if markAt es2 x = Mark.no then 0 else 1) := Q.fr.1 x
           show o x + cntL x (ch' :: rest') = (if markAt es2 x = Mark.no then 0 else 1)
           rw [cntL_cons]
@@ -286,6 +294,10 @@ theorem accept_marks (N : List Name) (hN : N.Pairwise (· < ·)) : ∀ f : Nat,
           rcases List.mem_cons.mp hc0 with e | e
           · rw [e]; exact a6 (hk ch (by simp))
           · exact Q.kc (fun c1 hc1 => hk c1 (List.mem_cons_of_mem _ hc1)) c0 e
+        · intro c0 hc0
+          rcases List.mem_cons.mp hc0 with e | e
+          · rw [e]; exact a6' (hk ch (by simp))
+          · exact Q.uc (fun c1 hc1 => hk c1 (List.mem_cons_of_mem _ hc1)) c0 e
         · simp only [Bool.or_eq_false_iff] at hb
           obtain ⟨b1, b2⟩ := a7 hb.1
           obtain ⟨b3, b4⟩ := Q.noop hb.2
@@ -296,10 +308,11 @@ theorem accept_marks (N : List Name) (hN : N.Pairwise (· < ·)) : ∀ f : Nat,
       have hco : ∀ x, o x = if markAt es x = .no then 0 else 1 := by
         intro x; have := hc x; simpa [cntL, h0] using this
       have hkc0 : KC cs := fun ch hch => Or.inl ((holdsL_nil_iff cs).mp h0 ch hch)
+      have huc0 : UC cs := fun ch hch _ => (holdsL_nil_iff cs).mp h0 ch hch
       simp only [acceptOr] at h
       split at h
       · cases h
-        exact ⟨⟨hc, hl⟩, fun _ _ => rfl, htidy, hkc0, (fun j hj => by cases hj), fun _ => ⟨h0, fun _ => rfl⟩⟩
+        exact ⟨⟨hc, hl⟩, fun _ _ => rfl, htidy, hkc0, huc0, (fun j hj => by cases hj), fun _ => ⟨h0, fun _ => rfl⟩⟩
       · rename_i ch hch
         have hchm : ch ∈ cs := List.mem_of_getElem? hch
         have hch0 : holds ch = [] := (holdsL_nil_iff cs).mp h0 ch hchm
@@ -336,13 +349,20 @@ theorem accept_marks (N : List Name) (hN : N.Pairwise (· < ·)) : ∀ f : Nat,
           cases r1 with
           | true =>
             simp only [if_true] at h2; cases h2
-            refine ⟨⟨fun x => by rw [hcnt x]; exact P.fr.1 x, hloc'⟩, P.same, htidy', ?_, fun j hj => ?_, fun h' => by cases h'⟩
+            have hkr : Kr ch'.viable := by rw [viable_of_skel hsk]; exact Kr_of_atLeastSome hal
+            refine ⟨⟨fun x => by rw [hcnt x]; exact P.fr.1 x, hloc'⟩, P.same, htidy', ?_, ?_, fun j hj => ?_, fun h' => by cases h'⟩
             · intro c0 hc0
               obtain ⟨p, hp⟩ := List.getElem?_of_mem hc0
               by_cases hpi : p = i
               · subst hpi; rw [hseti] at hp; cases hp
-                right; rw [viable_of_skel hsk]; exact Kr_of_atLeastSome hal
+                exact Or.inr hkr
               · exact Or.inl (hset p c0 hp hpi)
+            · intro c0 hc0 hu
+              obtain ⟨p, hp⟩ := List.getElem?_of_mem hc0
+              by_cases hpi : p = i
+              · subst hpi; rw [hseti] at hp; cases hp
+                rw [hu] at hkr; simp [Kr, MT.rank] at hkr
+              · exact hset p c0 hp hpi
             · cases hj
               exact ⟨by simp [hilt], fun p c0 hp hne => hset p c0 hp hne⟩
           | false =>
@@ -352,7 +372,7 @@ theorem accept_marks (N : List Name) (hN : N.Pairwise (· < ·)) : ∀ f : Nat,
             have h0' : holdsL (cs.set i ch') = [] := holdsL_set_nil hothers hch'0
             have Q := ih3 (cs.set i ch') (i + 1) es1 r o h2 hn1
               ⟨fun x => by rw [hcnt x]; exact P.fr.1 x, hloc'⟩ htidy' h0'
-            refine ⟨Q.fr, fun x hx => by rw [Q.same x hx]; exact P.same x hx, Q.tidy, Q.kc, Q.some_, fun hn => ?_⟩
+            refine ⟨Q.fr, fun x hx => by rw [Q.same x hx]; exact P.same x hx, Q.tidy, Q.kc, Q.uc, Q.some_, fun hn => ?_⟩
             obtain ⟨q1, q2⟩ := Q.none_ hn
             exact ⟨q1, fun x => by rw [q2 x, b2 x]⟩
         · exact ih3 cs (i + 1) es r o h hnm ⟨hc, hl⟩ htidy h0
